@@ -74,12 +74,12 @@ def sigmoid(x):
 
 broadcast_pre = """
 def broadcast_pre(x):
-    return x[None, :]
+    return x.reshape(1, -1)
 """
 
 broadcast_post = """
 def broadcast_post(x):
-    return x[:, None]
+    return x.reshape(-1, 1)
 """
 
 wsum = """
@@ -89,11 +89,11 @@ def wsum(weight, coupling):
 
 
 def _broadcast_pre(x):
-    return x[None, :]
+    return np.reshape(x, (1, -1))
 
 
 def _broadcast_post(x):
-    return x[:, None]
+    return np.reshape(x, (-1, 1))
 
 
 def _wsum(weight, coupling):
